@@ -571,7 +571,10 @@ def sphdist(ra1, dec1, ra2, dec2, units=["deg", "deg"]):
     dis = 2*np.arcsin(0.5*np.sqrt(dsq))
     w = dsq >= 3.99
     if np.any(w):
-        cross = np.cross(np.array([x1, y1, z1])[w], np.array([x2, y2, z2])[w])
+        # select the far pairs along the point axis (axis 1 of the 3xN arrays)
+        cross = np.cross(
+            np.array([x1, y1, z1])[:, w], np.array([x2, y2, z2])[:, w], axis=0,
+        )
         crosssq = cross[0]**2 + cross[1]**2 + cross[2]**2
         dis[w] = np.pi - np.arcsin(np.sqrt(crosssq))
 
